@@ -35,8 +35,11 @@ enum Kind {
     /// a bare enum variant name whose variant carries an (optional) payload: reading the payload
     /// must not look past the end of the document
     BarePayloadVariant,
+    /// a unit variant selected by its tag, without payload (`!Start`): for the enum target the
+    /// value `Start`, not a null document
+    TaggedUnitVariant,
 }
-const KINDS: [Kind; 18] = [
+const KINDS: [Kind; 19] = [
     Kind::Mapping,
     Kind::Sequence,
     Kind::Scalar,
@@ -55,6 +58,7 @@ const KINDS: [Kind; 18] = [
     Kind::EmptyString,
     Kind::TaggedStrNull,
     Kind::BarePayloadVariant,
+    Kind::TaggedUnitVariant,
 ];
 
 #[derive(Clone, Debug, Serialize, Deserialize, PartialEq, Eq, Hash)]
@@ -118,6 +122,7 @@ impl Part {
             Kind::EmptyString => ["''\n", "\"\"\n", "|\n...\n"][v % 3],
             Kind::TaggedStrNull => ["!!str null\n", "!!str ~\n"][v % 2],
             Kind::BarePayloadVariant => "Wait\n",
+            Kind::TaggedUnitVariant => ["!Start\n", "!Stop ~\n"][v % 2],
         }
     }
     fn has_syntax_error(&self) -> bool {
@@ -349,7 +354,7 @@ impl Property for C11 {
     const ID: &'static str = "C11";
     type Case = Case;
     fn rule() -> String {
-        "cases = sequences over 18 document kinds (mapping, sequence, scalar, empty, explicit null, comment-only, defines an anchor, aliases an anchor of an earlier document, type error early, type error late inside nesting, syntax error, unterminated flow, type error followed by a syntax error, another valid mapping, a bare enum variant name - of a unit variant and of a variant with an optional payload -, an empty string, a null-like scalar tagged `!!str`), 2-3 concrete texts per kind, with/without `...` end markers and trailing comments, LF/CRLF; all sequences of length <= 3 (thorough: <= 4) and random ones up to length 8; targets: untyped tree, BTreeMap<String,i64>, String and an enum (for which several kinds are type errors, some raised on a peeked event). Oracle: a model built from parsing each part alone with from_str: batch = Err if a part fails else the list of the non-empty parts; iterator = Ok / Err per part, continuing after a type-level error and ending after a part that contains a syntax error, never more than len+2 items, equal to batch when nothing fails; single-document entry points reject a stream whose later part has content. Non-trivial: >= 2 parts one of which is an error or anchor-related kind.".into()
+        "cases = sequences over 19 document kinds (mapping, sequence, scalar, empty, explicit null, comment-only, defines an anchor, aliases an anchor of an earlier document, type error early, type error late inside nesting, syntax error, unterminated flow, type error followed by a syntax error, another valid mapping, a bare enum variant name - of a unit variant and of a variant with an optional payload -, an empty string, a null-like scalar tagged `!!str`, a tag-selected unit variant without payload), 2-3 concrete texts per kind, with/without `...` end markers and trailing comments, LF/CRLF; all sequences of length <= 3 (thorough: <= 4) and random ones up to length 8; targets: untyped tree, BTreeMap<String,i64>, String and an enum (for which several kinds are type errors, some raised on a peeked event). Oracle: a model built from parsing each part alone with from_str: batch = Err if a part fails else the list of the non-empty parts; iterator = Ok / Err per part, continuing after a type-level error and ending after a part that contains a syntax error, never more than len+2 items, equal to batch when nothing fails; single-document entry points reject a stream whose later part has content. Non-trivial: >= 2 parts one of which is an error or anchor-related kind.".into()
     }
     fn assumptions() -> Vec<String> {
         vec![
@@ -362,6 +367,10 @@ impl Property for C11 {
         // the untyped one reads a null - is reader leniency outside this property)
         if c.target != Target::Str && c.parts.iter().any(|p| p.kind == Kind::TaggedStrNull) {
             return Outcome::Discard("tagged-null-string-for-a-non-string-target");
+        }
+        // (likewise a tag-selected variant without payload is a value for the enum target only)
+        if c.target != Target::Cmd && c.parts.iter().any(|p| p.kind == Kind::TaggedUnitVariant) {
+            return Outcome::Discard("tagged-unit-variant-for-a-non-enum-target");
         }
         match c.target {
             Target::Str => check_typed::<String>(c),
@@ -446,7 +455,7 @@ impl Property for C11 {
                 }
             }
         }
-        ctx.subspace(&format!("all sequences of length <= {maxlen} over 18 document kinds x 4 targets"), total, true);
+        ctx.subspace(&format!("all sequences of length <= {maxlen} over 19 document kinds x 4 targets"), total, true);
 
         let part = (prop::sample::select(KINDS.to_vec()), 0u8..3, any::<bool>(), any::<bool>()).prop_map(|(kind, variant, e, t)| Part { kind, variant, end_marker: e, trailing_comment: t });
         // bias towards valid kinds so that long streams survive
